@@ -1880,3 +1880,28 @@ mod tests {
     info!("writerResult:  {:?}", write_result);
   }
 }
+
+// Verification hooks (C02): fire the timed-event handlers without wall-clock timers, and
+// read-only views of the history bounds and of one reader proxy.
+#[cfg(rustdds_verif)]
+impl Writer {
+  pub(crate) fn verif_c02_repair_tick(&mut self, to_reader: GUID) {
+    self.handle_repair_data_send(to_reader);
+  }
+  pub(crate) fn verif_c02_repair_frags_tick(&mut self, to_reader: GUID) {
+    self.handle_repair_frags_send(to_reader);
+  }
+  pub(crate) fn verif_c02_cache_clean(&mut self) {
+    self.handle_cache_cleaning();
+  }
+  /// (first_seq, last_seq)
+  pub(crate) fn verif_c02_history_bounds(&self) -> (i64, i64) {
+    (
+      i64::from(self.history_buffer.first_change_sequence_number()),
+      i64::from(self.history_buffer.last_change_sequence_number()),
+    )
+  }
+  pub(crate) fn verif_c02_reader_proxy(&self, reader: GUID) -> Option<&RtpsReaderProxy> {
+    self.readers.get(&reader)
+  }
+}
